@@ -265,7 +265,43 @@ def fam_overlap(ctx, rng):
         ctx.violation('overlap:gap_test', 'overlap %r but exact gaps %r vs distance %r' % (r1, [float(g) for g in gaps], dist), desc)
 
 
-FAMILIES = [(fam_boxes, 150), (fam_arc_grid, 80), (fam_collections, 30), (fam_mixed, 30), (fam_overlap, 70)]
+def fam_overlap_exact(ctx, rng):
+    """axis-aligned boxes / rectangles with dyadic corners whose gap along ONE axis is exactly the distance, just below it or just above
+    it (the other axes overlap): the predicate is the closed test gap <= distance on every axis, in both argument orders"""
+    d3 = rng.random() < 0.6
+    nd = 3 if d3 else 2
+    dims_a = [G.dy(rng.uniform(1, 6), 4) for _ in range(nd)]; dims_b = [G.dy(rng.uniform(1, 6), 4) for _ in range(nd)]
+    oa = [G.dy(rng.uniform(-10, 10), 4) for _ in range(nd)]
+    ax = rng.randrange(nd)
+    dist = rng.choice([0.0, 0.25, 0.5, 0.0625, G.dy(rng.uniform(0, 2), 6)])
+    case = rng.choice(['equal', 'equal', 'below', 'above'])
+    gap = dist + {'equal': 0.0, 'below': -2.0 ** -10, 'above': 2.0 ** -10}[case]
+    side = rng.choice([1, -1])
+    ob = []
+    for i in range(nd):
+        if i == ax:
+            ob.append(oa[i] + dims_a[i] + gap if side > 0 else oa[i] - gap - dims_b[i])
+        else:
+            ob.append(oa[i] + G.dy(rng.uniform(-0.5, 0.5), 4) * dims_a[i])
+    if d3:
+        from ladybug_geometry.geometry3d import Plane as _Pl
+        a = Polyface3D.from_box(dims_a[0], dims_a[1], dims_a[2], _Pl(V3((0.0, 0.0, 1.0)), P3(tuple(oa))))
+        b = Polyface3D.from_box(dims_b[0], dims_b[1], dims_b[2], _Pl(V3((0.0, 0.0, 1.0)), P3(tuple(ob))))
+        r1 = Polyface3D.overlapping_bounding_boxes(a, b, dist); r2 = Polyface3D.overlapping_bounding_boxes(b, a, dist)
+    else:
+        a = Polygon2D.from_rectangle(P2(tuple(oa)), V2((0.0, 1.0)), dims_a[0], dims_a[1])
+        b = Polygon2D.from_rectangle(P2(tuple(ob)), V2((0.0, 1.0)), dims_b[0], dims_b[1])
+        r1 = Polygon2D.overlapping_bounding_rect(a, b, dist); r2 = Polygon2D.overlapping_bounding_rect(b, a, dist)
+    gaps = [max(F(a.min[i]) - F(b.max[i]), F(b.min[i]) - F(a.max[i])) for i in range(nd)]
+    exp = all(g <= F(dist) for g in gaps)
+    desc = {'a': a.to_dict(), 'b': b.to_dict(), 'distance': dist, 'axis': ax, 'case': case}
+    ctx.count('overlap.exact.%s' % ('3d' if d3 else '2d'), key=(ax, case, side), sample={'axis': ax, 'case': case, 'distance': dist}, nontrivial=True)
+    if r1 != exp or r2 != exp:
+        ctx.violation('overlap:threshold:%s:axis%d' % (case, ax), 'gap along axis %d is %s the distance %r (exact gaps %r): expected %r, got %r / %r (swapped)' % (
+            ax, {'equal': 'exactly', 'below': 'just below', 'above': 'just above'}[case], dist, [float(g) for g in gaps], exp, r1, r2), desc)
+
+
+FAMILIES = [(fam_boxes, 150), (fam_arc_grid, 80), (fam_collections, 30), (fam_mixed, 30), (fam_overlap, 70), (fam_overlap_exact, 60)]
 
 
 def explore(ctx):
